@@ -59,6 +59,8 @@ def _worker_verify(job):
         if nparts > 1:
             v.obligations = [ob for k, ob in enumerate(v.obligations) if k % nparts == part]
         v.discharge_all()
+        if os.environ.get('VERIF_TIER_EFFECTIVE') == 'thorough':
+            out['second_opinion'] = v.second_opinion()
         for ob in v.obligations:
             out['obligations'].append({
                 'name': ob.name, 'status': ob.status, 'backend': ob.backend, 'seconds': round(ob.seconds, 4),
@@ -120,6 +122,7 @@ def main(argv=None):
         return contracts.replay_file(prop, a.replay)
 
     timeout_ms = 20000 if tier == 'quick' else 60000
+    os.environ['VERIF_TIER_EFFECTIVE'] = tier          # workers: thorough = every z3 proof is also offered to cvc5
     def expand(kind, name):
         n = contracts.parallel_parts(kind, name)
         return [(kind, name, seed, timeout_ms, k, n) for k in range(n)]
@@ -191,6 +194,15 @@ def main(argv=None):
         checker_problems.append("%s: %s" % (r['name'], r['outside']))
     if native_error:
         checker_problems.append("native part crashed: " + native_error.strip().splitlines()[-1])
+    second = {'agree': 0, 'no_answer': 0, 'disagree': []}
+    for r in results:
+        so = r.get('second_opinion')
+        if so:
+            second['agree'] += so['agree']
+            second['no_answer'] += so['no_answer']
+            second['disagree'] += so['disagree']
+    for n in second['disagree']:
+        checker_problems.append("solvers disagree on %s (z3: proved, cvc5: sat on the same hypotheses)" % n)
     for r in results:
         for n, res in r.get('vacuity', []):
             if res == 'unsat':
@@ -277,6 +289,9 @@ def main(argv=None):
         'checker_problems': checker_problems,
         'explanation': plan.get('explanation', ''),
     }
+    if tier == 'thorough':
+        coverage['second_solver'] = {'cvc5_confirms': second['agree'], 'cvc5_no_answer_in_10s': second['no_answer'],
+                                     'disagreements': second['disagree']}
     if nat_cov:
         coverage['bounded'] = nat_cov
         ev = sum(c.get('evaluations', 0) for c in nat_cov)
